@@ -237,6 +237,12 @@ def observe(sc, want_summary=False, keep=False):
                 by_loc.setdefault(loc, []).append((title, kind))
         known_locs = set(paths)
         dupes += sum(len(v) for loc, v in by_loc.items() if loc not in known_locs)
+        # detached commands write their marker whenever they get to it (possibly in the middle of the next document's
+        # commands): they are taken out of the ordered log first; running one twice is still counted
+        det_all = {tc["id"] for i in range(nd) for tc in assembled(sc, i) if tc["det"]}
+        det_seen = [x for x in ran_all if x in det_all]
+        dupes += len(det_seen) - len(set(det_seen))
+        ran_all = [x for x in ran_all if x not in det_all]
         # split the run log into documents: commands of document i are the i-th segment in order
         pos = 0
         for i in range(nd):
@@ -259,16 +265,12 @@ def observe(sc, want_summary=False, keep=False):
                 ran.append([x for x in seg if x not in det_ids])
                 pos = len(ran_all) if i == nd - 1 else pos
                 continue
-            while pos < len(ran_all) and ran_all[pos] in ids and (ran_all[pos] not in seg or ran_all[pos] in det_ids):
-                if ran_all[pos] in seg:
-                    dupes += 1      # a detached command that ran twice
+            while pos < len(ran_all) and ran_all[pos] in ids and ran_all[pos] not in seg:
                 seg.append(ran_all[pos])
                 pos += 1
             ran.append([x for x in seg if x not in det_ids])
         leftover = ran_all[pos:]
-        # detached commands may write late (after the next document started): tolerate those, count the rest
-        det_all = {tc["id"] for i in range(nd) for tc in assembled(sc, i) if tc["det"]}
-        dupes += len([x for x in leftover if x not in det_all])
+        dupes += len(leftover)
         obs = {"res": res, "ran": ran, "exit": code, "aborted": code == 1, "dupes": dupes, "sumok": True,
                "wall_s": round(wall, 2), "stderr_tail": err.decode("utf-8", "replace")[-400:],
                "json_ok": isinstance(outcomes, list)}
